@@ -709,9 +709,10 @@ def _rkeys(kw, L, R):
 
 
 def _only_null_fill_upcasts(result, expected):
-    """every dtype difference is int64<->float64 or bool<->object: the upcast pandas applies when a join
-    leaves holes, decided on the whole frame by pandas and per partition by dask."""
-    pairs = {("int64", "float64"), ("float64", "int64"), ("bool", "object"), ("object", "bool")}
+    """every dtype difference is <numpy int or uint><->float64 or bool<->object: the upcast pandas applies when a
+    join leaves holes, decided on the whole frame by pandas and per partition by dask."""
+    ints = ["%s%d" % (k, b) for k in ("int", "uint") for b in (8, 16, 32, 64)]
+    pairs = {(i, "float64") for i in ints} | {("float64", i) for i in ints} | {("bool", "object"), ("object", "bool")}
     try:
         diffs = [(str(a), str(b)) for a, b in zip(result.dtypes, expected.dtypes) if str(a) != str(b)]
     except Exception:  # noqa: BLE001
@@ -1055,6 +1056,9 @@ def _concat_pred(case, f):
                 return "first-frame-has-categorical-column&inputs-have-different-columns"
             if symptom in ("name", "index-name") and 0 in f.get("rows", ()) and len(set(f.get("names" if symptom == "name" else "index-names", ()))) > 1:
                 return "an-input-is-empty&names-differ"
+            if symptom == "dtype" and 0 in f.get("rows", ()) and all(k == "series" for k in f.get("kinds", ())) \
+                    and len(set(f.get("series-dtypes", ()))) > 1:
+                return "an-input-is-empty&series-dtypes-differ"
         return "other"
     return pred
 
@@ -1096,7 +1100,8 @@ def _run_concat0(case, ctx):
          "kinds": [fd["kind"] for fd in case["frames"]], "cols": [fd["cols"] for fd in case["frames"]],
          "known": [bool(d.known_divisions) for d in dobjs], "npartitions": [d.npartitions for d in dobjs],
          "rows": [len(o) for o in objs], "known-out": known_out, "plan": plan, "fam": case["fam"],
-         "names": [repr(getattr(o, "name", "<frame>")) for o in objs], "index-names": [repr(o.index.name) for o in objs]}
+         "names": [repr(getattr(o, "name", "<frame>")) for o in objs], "index-names": [repr(o.index.name) for o in objs],
+         "series-dtypes": [str(getattr(o, "dtype", "<frame>")) for o in objs]}
     ctx.count("concat0_compared")
     ctx.count("concat0_interleaved_plan" if interleaved else "concat0_stacked_plan")
     if known_out:
@@ -1299,6 +1304,9 @@ PENDING = {
         "result assembly drops empty partitions: Series name of the non-empty inputs survives, pandas/_meta say None",
     "concat0:an-input-is-empty&names-differ:index-name":
         "same for the index name",
+    "concat0:an-input-is-empty&series-dtypes-differ:dtype":
+        "same assembly step: concat of Series only, the empty one has the wider dtype (float64 + int64): result keeps int64, "
+        "pandas 3 / _meta say float64",
 }
 # fixed by fixes_ready/C39_01..05 (labels the predicates of _merge_pred still name, so that a regression is recognisable):
 #   merge:broadcast-join-then-merge-on-same-key:rows / :ValueError@local.py:start_state_from_dask            (01)
